@@ -14,7 +14,8 @@ def load_legacy():
 
 class C05(PropBase):
     id = "C05"
-    lean_modules = ["SqModel.Props.C05", "SqModel.Proofs.Bridge", "SqModel.Proofs.BridgeRat"]
+    corr_fields = ['alt', 'alts']
+    lean_modules = ["SqModel.Props.C05", "SqModel.Proofs.BridgeBits", "SqModel.Proofs.Bridge", "SqModel.Proofs.BridgeRat"]
     extractors = ["ma_code", "trans"]
     rule = ("all 8192 AC13 codes x {DF4, DF20} and all 4096 AC12 codes x TC 9..18 (quick: 3 type codes), each in a random "
             "payload/address, applied to existing rows with 14 different pasts (created by DF11 / surface / position / identification / velocity / DF4 / DF5 / DF20 ...) and as creating frame, x {-U, -R}; row.altitude against the Lean "
